@@ -28,18 +28,7 @@ CONFIGS = {
     "solo-input": dict(modes=("input",), nmsg=(1,), adversary=("third",)),
 }
 
-_canon_cache = {}
-
-
-def canonical(cfgname):
-    if cfgname not in _canon_cache:
-        sim = Sim(**CONFIGS[cfgname])
-        try:
-            tr = sim.canonical(honest_policy())
-        finally:
-            sim.close_world()
-        _canon_cache[cfgname] = tr
-    return _canon_cache[cfgname]
+from harness.explore import Explore as _Explore, make_jobs, make_random_jobs  # noqa: E402
 
 
 def internal_failures(sim):
@@ -63,82 +52,14 @@ def internal_failures(sim):
     return out
 
 
-class Explore(Job):
-    functions = ["wormhole.create -> _boss.Boss and every machine it wires (Nameplate, Mailbox, Send, Order, Key, Receive, Lister, Allocator, "
-                 "Input, Code, Terminator), _rendezvous.RendezvousConnector.ws_open/ws_message/ws_close/_tx/stop, wormhole._DelegatedWormhole/_DeferredWormhole"]
-    shadows = ["_rendezvous.internet.ClientService (fake)", "_key.SPAKE2_Symmetric (ideal PAKE)", "_key.SecretBox (ideal AEAD)",
-               "_key.utils.random, os.urandom (deterministic)"]
+class Explore(_Explore):
+    configs = CONFIGS
 
-    def __init__(self, cfg, plo, phi, k):
-        self.cfg, self.plo, self.phi, self.k = cfg, plo, phi, k
-        self.name = "explore_%s_p%d-%d_k%d" % (cfg, plo, phi, k)
-        self.bounds = dict(config=cfg, canonical_prefix_lengths="%d..%d" % (plo, phi - 1), free_steps=k,
-                           then="fair completion (reconnect, deliver everything owed, complete stops)")
-        self.must_reach = ("nt:explored",)
+    def violations(self, sim, when):
+        return internal_failures(sim)
 
-    def oracle(self, sim, when):
-        fails = internal_failures(sim)
-        for what, detail in fails:
-            check(False, "%s: %s" % (what, detail))
-        return not fails
-
-    def scenario(self):
-        canon = canonical(self.cfg)
-        span = [p for p in range(self.plo, self.phi) if p <= len(canon)]
-        if not span:
-            raise core._Abort()
-        p = span[eng().choose(len(span), "prefix")]
-        sim = Sim(**CONFIGS[self.cfg])
-        sched = []
-        eng().inputs["prefix"] = p
-        eng().inputs["sched"] = sched
-        try:
-            ok = replay_actions(sim, canon[:p])
-            assert ok, "canonical prefix not replayable"
-            if not self.oracle(sim, "prefix"):
-                return
-            for step in range(self.k):
-                acts = sim.enabled()
-                if not acts:
-                    break
-                a = acts[eng().choose(len(acts), "act%d" % step)]
-                sched.append(list(a))
-                sim.do(a)
-                if not self.oracle(sim, "step"):
-                    return
-            sim.settle()
-            self.oracle(sim, "settled")
-            eng().note("nt:explored")
-        finally:
-            sim.close_world()
-
-    def key(self, inp, label):
+    def classify(self, label):
         return classify(label)
-
-    def replay(self, inp, label):
-        canon = canonical(self.cfg)
-        sim = Sim(**CONFIGS[self.cfg])
-        try:
-            if not replay_actions(sim, canon[:inp["prefix"]]):
-                return None
-            fails = internal_failures(sim)
-            for a in inp["sched"]:
-                if fails:
-                    break
-                a = tuple(a)
-                if a not in sim.enabled():
-                    return None
-                sim.do(a)
-                fails = internal_failures(sim)
-            if not fails:
-                sim.settle()
-                fails = internal_failures(sim)
-            if fails:
-                return "config %s, after canonical prefix %r + %r: %s" % (
-                    self.cfg, [tuple(x) for x in canon[max(0, inp["prefix"] - 3):inp["prefix"]]], inp["sched"], fails[0])
-            return None
-        finally:
-            sim.close_world()
 
 
 def classify(label):
@@ -157,15 +78,7 @@ def classify(label):
 
 
 def jobs(tier):
-    thorough = tier == "thorough"
-    k = 3 if thorough else 2
-    J = []
-    for cfg in CONFIGS:
-        n = len(canonical(cfg))
-        step = 4 if thorough else 8
-        for lo in range(0, n + 1, step):
-            J.append(Explore(cfg, lo, min(lo + step, n + 1), k))
-    return J
+    return make_jobs(Explore, tier, 2, 3) + make_random_jobs(Explore, tier)
 
 
 ASSUMPTIONS = [
